@@ -236,10 +236,10 @@ func (g *c01Gen) route(d int, expr string, v c01Val) (string, []c01Seg) {
 	}
 }
 
-const c01NSources = 20
+const c01NSources = 22
 
 var c01SourceNames = []string{"ctx-var", "dq-literal", "bq-literal", "struct-field", "ptr-struct-field", "nested-struct-field", "map-element", "map-iface-element",
-	"strings-element", "ifaces-element", "helper-string", "helper-iface", "raw()", "html-var", "htmler-var", "helper-html", "reflect-value-of-string", "stringer-var", "named-string-with-String-method", "time-zone-name"}
+	"strings-element", "ifaces-element", "helper-string", "helper-iface", "raw()", "html-var", "htmler-var", "helper-html", "reflect-value-of-string", "stringer-var", "named-string-with-String-method", "time-zone-name", "nil-pointer-whose-String-expects-nil", "nil-pointer-whose-HTML-expects-nil"}
 
 // source sets up the context for payload p and returns the initial expression.
 func c01Source(k int, p string, ctx *plush.Context) (expr string, v c01Val, ok bool) {
@@ -307,7 +307,7 @@ func c01Source(k int, p string, ctx *plush.Context) (expr string, v c01Val, ok b
 	case 18:
 		ctx.Set("nsg", c01NamedStringer(p))
 		return "nsg", c01Val{s: p}, true
-	default:
+	case 19:
 		// a time prints through its format; the name of its zone is data
 		if strings.ContainsAny(p, "\x00") {
 			return "", v, false
@@ -315,7 +315,37 @@ func c01Source(k int, p string, ctx *plush.Context) (expr string, v c01Val, ok b
 		ctx.Set("TIME_FORMAT", "MST")
 		ctx.Set("tmz", time.Date(2020, 1, 2, 3, 4, 5, 0, time.FixedZone(p, 3600)))
 		return "tmz", c01Val{s: p}, true
+	case 20:
+		// a nil pointer is a value like any other when its methods expect one
+		c01NilText = p
+		ctx.Set("nps", (*c01NilSafe)(nil))
+		return "nps", c01Val{s: p}, true
+	default:
+		c01NilText = p
+		ctx.Set("nph", (*c01NilSafeHTML)(nil))
+		return "nph", c01Val{s: p, trusted: true}, true
 	}
+}
+
+// c01NilText is what the nil receivers below print (the workload runs in one goroutine).
+var c01NilText string
+
+type c01NilSafe struct{ s string }
+
+func (n *c01NilSafe) String() string {
+	if n == nil {
+		return c01NilText
+	}
+	return n.s
+}
+
+type c01NilSafeHTML struct{ s string }
+
+func (n *c01NilSafeHTML) HTML() template.HTML {
+	if n == nil {
+		return template.HTML(c01NilText)
+	}
+	return template.HTML(n.s)
 }
 
 type c01NamedStringer string
